@@ -90,6 +90,17 @@ var findings = []finding{
 		witness: []string{"INSERT IGNORE INTO othertable VALUES (CAST('abcdefghijklmnopqrstuvwxyz' AS BINARY), 9)"}},
 	{id: "C10-now-family-nonliteral-arg", frames: []string{"expression.ExpressionsResolved"}, region: re(`\b(curtime|current_time|now|current_timestamp|localtime|localtimestamp|sysdate|utc_timestamp|utc_time)\s*\(\s*[^)\s]`),
 		witness: []string{"SELECT CURTIME(j) FROM test"}},
+	{id: "C10-analyze-empty-table", frames: []string{"memory.(*StatsProv).estimateStats"}, region: re(`\banalyze\b`),
+		witness: []string{"TRUNCATE mytable", "ANALYZE TABLE mytable"}},
+	{id: "C10-add-generated-column-first", frames: []string{"memory.columnsMatch"}, region: re(`\balter\b.*\b(as|generated)\b.*\bfirst\b`),
+		witness: []string{"ALTER TABLE othertable ADD C0 VARBINARY(10) AS (0) FIRST"}},
+	{id: "C10-star-argument", frames: []string{"expression.(*Star).Type"},
+		region:  re(`\b(std|stddev|sum|avg|min|max|variance|var_pop|var_samp|stddev_pop|stddev_samp|bit_and|bit_or|bit_xor|group_concat|json_arrayagg|any_value|first|last|first_value|last_value|lag|lead|ntile|nth_value)\s*\(\s*\*`),
+		witness: []string{"SELECT STD(*) OVER () FROM ab"}},
+	{id: "C10-aggregate-outside-select", frames: []string{"planbuilder.(*Builder).buildAggregateFunc"}, region: re(`\bset\b.*\b(any_value|avg|sum|min|max|count|std|variance|bit_and|bit_or|bit_xor|group_concat|first|last|json_arrayagg)\s*\(`),
+		witness: []string{"SET @v1 = ANY_VALUE(AVG('SECOND'))"}},
+	{id: "C10-external-procedure-arg-count", frames: []string{"planbuilder.resolveExternalStoredProcedure"}, region: re(`\bcall\s+memory_`),
+		witness: []string{"CALL memory_error_table_not_found(1)"}},
 	{id: "C10-charset-not-implemented", frames: []string{"types.MustCreateString"}, region: re(`\b(names|charset|character\s+set|character_set_\w+|collation_\w+)\b`),
 		witness: []string{"SET NAMES koi8r", "SELECT 'a'"}},
 	// ---- the tables stay consistent for a fresh session ---------------------------------------
